@@ -30,10 +30,92 @@ def post(ctx):
     return {"recurrence_systems": nsys, "systems_closed_with_constant_coefficients": nclosed}
 
 
+def worklist_part(ctx):
+    """spec/Worklist.tla: (model) every dependency relation over 4 nodes, every pop order: closed and confluent;
+    (trace) the pop orders of the real get_recurrences under several hash seeds are behaviours of the worklist
+    and end in the closure, with the same system for every seed"""
+    import json
+    import os
+    import shutil
+    import subprocess
+    import tempfile
+    from .. import pool, tlc
+    run = ctx["run"]
+    quick = run.tier == "quick"
+    picks = []
+    for it in ctx["items"]:
+        gs = it.get("goals") or []
+        if gs and it.get("text") and len(picks) < (10 if quick else 60):
+            picks.append({"wid": it["id"], "text": it["text"], "goal": gs[-1], "timeout": 60})
+    seeds = ["0", "1", "2", "3"] if quick else ["0", "1", "2", "3", "4", "5", "6", "7"]
+    obs = {}
+    for hs in seeds:
+        jobs = [{"kind": "worklist", "id": f"wl{i}", "items": picks[i:i + 5], "timeout": 600} for i in range(0, len(picks), 5)]
+        res = pool.run_jobs(jobs, per_job_timeout=600, hashseed=hs, fresh_each=True)
+        for r in res.values():
+            for o in r.get("items", []):
+                obs[(o["wid"], hs)] = o
+    traces = []
+    systems = {}
+    for (wid, hs), o in obs.items():
+        if "order" not in o:
+            continue
+        names = sorted(set(o["deps"]) | {d for ds in o["deps"].values() for d in ds} | set(o["order"]) | {o["start"]})
+        idx = {m: i + 1 for i, m in enumerate(names)}
+        traces.append({"id": f"{wid}-hs{hs}".replace("/", "_"), "n": len(names), "start": idx[o["start"]],
+                       "deps": [[idx[d] for d in o["deps"].get(m, [])] for m in names], "order": [idx[m] for m in o["order"]]})
+        systems.setdefault(wid, {})[hs] = (tuple(sorted(o["deps"])), tuple(o["order"]))
+    out = {"worklist_model_states": 0, "worklist_traces": 0, "worklist_distinct_orders": 0}
+    for mode, payload in (("model", {"mode": "model", "nodes": 4, "traces": []}), ("trace", {"mode": "trace", "nodes": 0, "traces": traces})):
+        if mode == "trace" and not traces:
+            continue
+        work = tempfile.mkdtemp(prefix="verif-wl-")
+        try:
+            batch = os.path.join(work, "batch.json")
+            outdir = os.path.join(work, "out")
+            os.mkdir(outdir)
+            json.dump(payload, open(batch, "w"))
+            cmd = ["java", "-XX:+UseParallelGC", "-Xmx6g", "-cp", tlc.TLC_CP, "tlc2.TLC", "-workers", "8", "-metadir",
+                   os.path.join(work, "meta"), "-noGenerateSpecTE", "-config", os.path.join(tlc.SPEC_DIR, "Worklist.cfg"),
+                   os.path.join(tlc.SPEC_DIR, "Worklist.tla")]
+            p = subprocess.run(cmd, cwd=tlc.SPEC_DIR, env=dict(os.environ, BATCH_FILE=batch, OUT_DIR=outdir), capture_output=True,
+                               text=True, timeout=3000)
+            m = tlc._STATS_RE.search(p.stdout)
+            if p.returncode != 0 or not m:
+                run.error(f"TLC Worklist ({mode}): " + p.stdout[-2000:])
+                continue
+            if mode == "model":
+                out["worklist_model_states"] = int(m.group(2))
+            else:
+                for t in traces:
+                    vf = os.path.join(outdir, t["id"] + ".json")
+                    if not os.path.exists(vf):
+                        run.error(f"worklist trace {t['id']}: no verdict")
+                        continue
+                    v = json.load(open(vf))
+                    out["worklist_traces"] += 1
+                    if not (v["accepted"] and v["closed"] and v["isClosure"]):
+                        run.violation({"worklist:" + t["id"]}, {"clause": "worklist behaviour / closure", "verdict": v, "trace": t})
+        finally:
+            shutil.rmtree(work, ignore_errors=True)
+    for wid, per in systems.items():
+        out["worklist_distinct_orders"] += len({o for _, o in per.values()}) - 1
+        if len({s for s, _ in per.values()}) > 1:
+            run.violation({"worklist-seed:" + wid}, {"clause": "recurrence system depends on the hash seed",
+                                                    "systems": {hs: s for hs, (s, _) in per.items()}})
+    return out
+
+
+def post_all(ctx):
+    cov = post(ctx) or {}
+    cov.update(worklist_part(ctx))
+    return cov
+
+
 def main(tier, seed):
     items = standard_items(seed, tier, 18, 250, bench_quick=6)
     return analysis_check("C03", tier, seed, items=items, want=["normalized", "recs"],
-                          builders=[C.b_normalized, C.b_recs], N=4 if tier == "quick" else 6, post=post,
+                          builders=[C.b_normalized, C.b_recs], N=4 if tier == "quick" else 6, post=post_all,
                           assumptions=["the program judged is Polar's normalized program as exported by the harness "
                                        "(statement list with conditions/defaults); that it means the same as the source is C02",
                                        "pointwise identity is checked on the stores reachable within N iterations"])
